@@ -280,6 +280,10 @@ def equal_value(V, a, b, path, diffs):
         return
     if symx.is_sym(a) or symx.is_sym(b):
         if not (symx.is_sym(a) and symx.is_sym(b) and symx.same_term(a, b)):
+            if any(not d.startswith("~") for d in diffs):
+                # a difference is already established: no further solver work (and witnesses) for the rest
+                diffs.append(f"~{path}: not compared")
+                return
             try:
                 ok = V.prove(SB(lift(a) == lift(b)), "parameter-preserved", info=path)
             except TypeError:
